@@ -274,10 +274,17 @@ def run_generic(prop, tier, seed, items, job, extra=(), engine="e3", level="mode
         if confirm_job is None:
             return True
         outs = []
+        cj = confirm_job
+        if isinstance(case, dict) and "raw_item" in case:
+            cj, case = job, _untuple(case["raw_item"])
         for _ in range(2):
-            for r in pmap(confirm_job, [case], extra=extra, chunk=1, procs=1):
-                outs.append(sorted((v["rule"], v["msg"]) for v in r.get("violations", [])))
-        return outs[0] == outs[1] and (viol["rule"], viol["msg"]) in outs[0]
+            for r in pmap(cj, [case], extra=extra, chunk=1, procs=1):
+                outs.append(sorted((v["rule"], v.get("ident", v["msg"]))
+                                   for v in r.get("violations", [])))
+        # `ident` (default: the message) is what has to reproduce.  C09 uses it: there
+        # the defect *is* that two executions differ, so the differing rows vary.
+        return outs[0] == outs[1] and \
+            (viol["rule"], viol.get("ident", viol["msg"])) in outs[0]
 
     lines, n_viol = rep.finish(engine, confirm)
     for k in required_stats:
@@ -310,11 +317,21 @@ def run_generic(prop, tier, seed, items, job, extra=(), engine="e3", level="mode
     finish_process(lines, n_viol, rep.broken)
 
 
-def generic_replay(prop, path, job, extra=()):
+def _untuple(x):
+    """JSON round trip turns tuples into lists; work items are tuples at top level."""
+    return tuple(x) if isinstance(x, list) else x
+
+
+def generic_replay(prop, path, job, extra=(), item_job=None):
     with open(path) as f:
         d = json.load(f)
     case = d.get("payload")
     want = d["violation"]
+    if isinstance(case, dict) and "raw_item" in case:
+        if item_job is None:
+            print("replay of a raw work item needs the check's job function")
+            return 2
+        job, case = item_job, _untuple(case["raw_item"])
     out = None
     for r in pmap(job, [case], extra=extra, chunk=1, procs=1):
         out = r
